@@ -678,3 +678,6 @@ mod tests {
         assert_eq!(list.get_by_rank(2), Some((b"c".to_vec(), 1.0)));
     }
 }
+#[cfg(kani)]
+#[path = "/verif/kani/in_place/skiplist.rs"]
+mod verif_kani;
